@@ -35,6 +35,7 @@ EQ = Function('EQ', IntSort(), IntSort(), BoolSort())            # the recursive
 NANFREE = Function('NANFREE', IntSort(), BoolSort())             # no NaN at any depth
 COPY = Function('COPY', IntSort(), IntSort(), BoolSort())        # structural copy (same types and values; identities free)
 D = Int('D')
+TYPE_PREDICATES = ('is_nan', 'is_float', 'is_num', 'is_int', 'is_str', 'is_bool', 'is_none', 'is_date')
 
 
 # ------------------------------------------------------------------------------------------------ specification
@@ -117,6 +118,13 @@ def run_eq(ctx, me, x, y, label):
     and go through eq's own contract"""
     feq = me.func('eq')
     inline = {'eq': (me, feq), '_eq_attrs': (me, me.func('_eq_attrs'))}
+    # type predicates of pyg_base._types are executed from their own source when eq calls one
+    mt = ctx.mod('_types')
+    for nm in TYPE_PREDICATES:
+        try:
+            inline[nm] = (mt, mt.func(nm))
+        except SelectorError:
+            pass
     ex = Exec(me, [Vals({'eq': eq_contract})], inline=inline, name=label)
     st = State(); st.pc += pre(x, y)
     base = len(st.pc)
